@@ -200,6 +200,7 @@ type cfCase struct {
 	DNS    *cfDNSCase    `json:"dns,omitempty"`
 	Files  *cfFilesCase  `json:"files,omitempty"`
 	Schema *cfSchemaCase `json:"schema,omitempty"`
+	Action *cfActCase    `json:"action,omitempty"`
 }
 
 func cfWant(c *core.Ctx, sub string) bool {
@@ -228,6 +229,7 @@ func cfRun(c *core.Ctx) {
 		timed("dns", func() { cfRunDNS(c, w) })
 		timed("files", func() { cfRunFiles(c, w) })
 		timed("funcs", func() { cfRunFuncs(c, w) })
+		timed("actions", func() { cfRunActions(c, w) })
 	}
 	if cfWant(c, "schema") {
 		timed("schema", func() { cfRunSchema(c, w) })
@@ -262,6 +264,8 @@ func cfReplay(c *core.Ctx, data json.RawMessage) []core.Violation {
 		cfJudgeFiles(c, w, *cs.Files)
 	case cs.Kind == "schema" && cs.Schema != nil:
 		cfJudgeSchema(c, w, *cs.Schema)
+	case cs.Kind == "action" && cs.Action != nil:
+		cfJudgeAction(c, w, *cs.Action)
 	}
 	return c.TakeViolations()
 }
